@@ -212,6 +212,79 @@ def run(seed=0, rounds=400):
             zs[i + 1] = rng.randint(-2, 3, size=(2, 2))
             check('monoid-fold-splice', (fold(zs, 0, n) == fold(xs, 0, i) @ (zs[i] @ zs[i + 1]) @ fold(xs, i + 2, n)).all(), i)
     print('AXIOMS ' + json.dumps(dict(rounds=rounds, failures=fails[:5])))
+    ok_sets = run_sets(seed)
+    ok_ev = evaluable_nodes(seed)
+    return not fails and ok_sets and ok_ev
+
+
+def run_sets(seed=0, rounds=300):
+    """numpy.unique / union1d / nonzero / functools.reduce(numpy.union1d, .) axioms of pyvc/npsets.py vs the real numpy."""
+    import functools
+    rng = numpy.random.RandomState(seed)
+    fails = []
+    for _ in range(rounds):
+        n = rng.randint(0, 7)
+        v = rng.randint(-3, 4, size=n)
+        u = numpy.unique(v)
+        if not ((numpy.diff(u) > 0).all() and set(u.tolist()) == set(v.tolist()) and len(u) <= n):
+            fails.append(('unique', v.tolist(), u.tolist()))
+        w = rng.randint(-3, 4, size=rng.randint(0, 5))
+        x = numpy.union1d(v, w)
+        if not ((numpy.diff(x) > 0).all() and set(x.tolist()) == set(v.tolist()) | set(w.tolist())):
+            fails.append(('union1d', v.tolist(), w.tolist(), x.tolist()))
+        m = rng.randint(0, 2, size=n).astype(bool)
+        p, = m.nonzero()
+        if not ((numpy.diff(p) > 0).all() and p.tolist() == [i for i in range(n) if m[i]]):
+            fails.append(('nonzero', m.tolist(), p.tolist()))
+        items = [rng.randint(-3, 4, size=rng.randint(0, 4)) for _ in range(rng.randint(1, 4))]
+        r = functools.reduce(numpy.union1d, items)
+        if len(items) == 1:
+            ok = r is items[0]
+        else:
+            ok = (numpy.diff(r) > 0).all() and set(r.tolist()) == set(a for it in items for a in it.tolist())
+        if not ok:
+            fails.append(('reduce-union1d', [it.tolist() for it in items], r.tolist()))
+    print('AXIOMS-SETS ' + json.dumps(dict(rounds=rounds, failures=fails[:5])))
+    return not fails
+
+
+def evaluable_nodes(seed=0, rounds=60):
+    """denotations of contracts/evalsem.py vs real evaluable nodes (compiled and evaluated)."""
+    from nutils import evaluable, types
+    rng = numpy.random.RandomState(seed)
+    fails = []
+
+    def ev(node, **args):
+        return numpy.asarray(evaluable.compile(node)(dict(args)))
+    for _ in range(rounds):
+        n = int(rng.randint(1, 6))
+        a = rng.randint(-5, 6, size=n)
+        i = int(rng.randint(0, n))
+        idx = rng.randint(0, n, size=rng.randint(0, 5))
+        ca = evaluable.constant(a)
+        I_ = evaluable.InRange(evaluable.Argument('i', (), int), evaluable.constant(n))
+        checks = [
+            ('Range', ev(evaluable.Range(evaluable.constant(n))).tolist(), list(range(n))),
+            ('get', ev(evaluable.get(ca, 0, I_), i=i).tolist(), int(a[i])),
+            ('Take-vector', ev(evaluable.Take(ca, evaluable.constant(idx))).tolist(), a[idx].tolist()),
+            ('take-axis0', ev(evaluable.take(ca, evaluable.constant(idx), axis=0)).tolist(), a[idx].tolist()),
+            ('Less+InsertAxis', ev(evaluable.Less(ca, evaluable.InsertAxis(evaluable.constant(1), evaluable.constant(n)))).tolist(), (a < 1).tolist()),
+            ('Find', ev(evaluable.Find(evaluable.Less(ca, evaluable.InsertAxis(evaluable.constant(1), evaluable.constant(n))))).tolist(), (a < 1).nonzero()[0].tolist()),
+            ('add-scalar', ev(evaluable.Range(evaluable.constant(n)) + evaluable.get(ca, 0, I_), i=i).tolist(), (numpy.arange(n) + a[i]).tolist()),
+            ('mod', ev(ca % 3).tolist(), (a % 3).tolist()),
+        ]
+        q, r_ = evaluable.divmod(I_, 2)
+        checks.append(('divmod', [ev(q, i=i).tolist(), ev(r_, i=i).tolist()], [i // 2, i % 2]))
+        b = rng.randint(0, 4, size=int(rng.randint(1, 4)))
+        nb = 4
+        rv = evaluable.Ravel(evaluable.RavelIndex(ca, evaluable.constant(b), evaluable.constant(100), evaluable.constant(nb)))
+        checks.append(('Ravel(RavelIndex)', ev(rv).tolist(), (a[:, None] * nb + b[None, :]).ravel().tolist()))
+        tabs = tuple(types.arraydata(rng.randint(0, 9, size=int(rng.randint(0, 4)))) for _ in range(n))
+        checks.append(('Elemwise', ev(evaluable.Elemwise(tabs, I_, int), i=i).tolist(), numpy.asarray(tabs[i]).tolist()))
+        for name, got, want in checks:
+            if got != want:
+                fails.append((name, got, want))
+    print('AXIOMS-EVALUABLE ' + json.dumps(dict(rounds=rounds, failures=fails[:5])))
     return not fails
 
 
